@@ -6,3 +6,5 @@ import LyModel.Props.C03Fn
 #print axioms LyModel.Bridge.Utf8.less_eq
 #print axioms LyModel.Bridge.Utf8.greater_eq
 #print axioms LyModel.Bridge.Utf8.andeq_eq
+#print axioms LyModel.Props.C03Fn.gen_utf8len_is_model
+#print axioms LyModel.Bridge.Utf8.utf8len_eq
